@@ -326,6 +326,130 @@ def buildRhs (cfg : Cfg) (sys : Sys) : Except BuildErr OdeSys :=
                   rateExprs := rs.map (massAction (lookup vars)) }
         else .error .keyError
 
+/-! ## `get_odesys`, general form: Expr-valued (active) substitutions and `constants=` -/
+
+/-- polynomial expressions of `chempy.util._expr`: `Constant([c])`, `Symbol(unique_keys=(k,))`, `_AddExpr([a, b])`,
+    `_MulExpr([a, b])` — what an `Expr`-valued entry of `substitutions` is built from (non-polynomial classes: C16) -/
+inductive PExpr where
+  | const (c : Rat)
+  | sym (k : String)
+  | add (a b : PExpr)
+  | mul (a b : PExpr)
+
+/-- `act(variables, backend=backend)`: `Constant.__call__` → its argument, `Symbol.__call__` → `variables[uk]` (KeyError = `none`),
+    `_BinaryExpr.__call__` → `op(arg0, arg1)` -/
+def evalPExpr (vars : List (String × Poly String)) : PExpr → Option (Poly String)
+  | .const c => some (Poly.const c)
+  | .sym k => dget? vars k
+  | .add a b =>
+    match evalPExpr vars a, evalPExpr vars b with
+    | some x, some y => some (x + y)
+    | _, _ => none
+  | .mul a b =>
+    match evalPExpr vars a, evalPExpr vars b with
+    | some x, some y => some (x * y)
+    | _, _ => none
+
+/-- `_reg_unique(sv)` for an active substitution (ode.py 264-265): a `Symbol` has `args is None`, so the generic branch
+    registers its unique key with value `None` unless it is substituted; a `Constant` registers nothing; a binary
+    expression recurses into its two arguments, left first -/
+def regExpr (subsKeys : List String) (unique : List (String × Option Rat)) : PExpr → List (String × Option Rat)
+  | .const _ => unique
+  | .sym k => if decide (k ∈ subsKeys) then unique else dset unique k none
+  | .add a b => regExpr subsKeys (regExpr subsKeys unique a) b
+  | .mul a b => regExpr subsKeys (regExpr subsKeys unique a) b
+
+/-- general configuration of `get_odesys`: the entries of `substitutions` split into the passive (numeric) ones and the
+    active (`Expr`-valued) ones, each in dict order, and the attributes of the object passed as `constants=` -/
+structure GCfg where
+  includeParams : Bool := true
+  subs : List (String × Rat) := []
+  active : List (String × PExpr) := []
+  consts : List (String × Rat) := []
+  cstr : Bool := false
+  pyNums : Bool := false
+
+/-- the configuration without active substitutions and constants -/
+def GCfg.toCfg (g : GCfg) : Cfg := { includeParams := g.includeParams, subs := g.subs, cstr := g.cstr, pyNums := g.pyNums }
+
+/-- all keys of `substitutions` (`k not in substitutions`) -/
+def subsKeysG (g : GCfg) : List String := dkeys g.subs ++ dkeys g.active
+
+/-- `substitutions` as far as membership goes (the values of the active entries are irrelevant for `_reg_unique`) -/
+def subsForMembership (g : GCfg) : List (String × Rat) := g.subs ++ g.active.map fun kv => (kv.1, 0)
+
+/-- the parameter keys considered in ode.py 272-285: `_ori_pk ∪ _subst_pk` (`_subst_pk` = `sv.parameter_keys` is empty for
+    the modelled expression classes) minus the substituted ones and `'time'` -/
+def candidatePk (g : GCfg) (subst : List String) : List String :=
+  (dedupKeys (cstrKeys (cstrOf g.cstr subst))).filter fun pk => !(dmem (subsForMembership g) pk) && !(decide (pk = "time"))
+
+/-- `hasattr(constants, pk)` → `_passive_subst[pk] = magnitude(getattr(constants, pk))` -/
+def usedConsts (g : GCfg) (subst : List String) : List (String × Rat) :=
+  (candidatePk g subst).filterMap fun pk => (dget? g.consts pk).map fun c => (pk, c)
+
+/-- `all_pk`: the candidates that `constants` does not provide -/
+def allPkG (g : GCfg) (subst : List String) : List String :=
+  (candidatePk g subst).filter fun pk => !(dmem g.consts pk)
+
+/-- `unique`: first the keys registered by the active substitutions (in the loop over `substitutions`), then the reactions -/
+def uniqueDictG (g : GCfg) (rxns : List Rxn) : List (String × Option Rat) :=
+  if g.includeParams then []
+  else rxns.foldl (fun u r => regUnique (subsForMembership g) u r.param)
+    (g.active.foldl (fun u kv => regExpr (subsKeysG g) u kv.2) [])
+
+def paramNamesG (g : GCfg) (sys : Sys) : List String :=
+  let pk := allPkG g sys.subst
+  if g.includeParams then pk
+  else pk ++ (dkeys (uniqueDictG g sys.rxns)).filter fun k => !(decide (k ∈ pk))
+
+/-- `for k, act in _active_subst.items(): variables[k] = act(variables, backend=backend)` — sequential, each expression sees
+    the entries written before it; `none` = KeyError -/
+def applyActive (d : List (String × Poly String)) : List (String × PExpr) → Option (List (String × Poly String))
+  | [] => some d
+  | (k, e) :: t =>
+    match evalPExpr d e with
+    | none => none
+    | some v => applyActive (dset d k v) t
+
+/-- `variables.update(_passive_subst)` -/
+def applyPassive (d : List (String × Poly String)) (passive : List (String × Rat)) : List (String × Poly String) :=
+  passive.foldl (fun d kv => dset d kv.1 (Poly.const kv.2)) d
+
+/-- the `variables` dict of `dydt` in the general case: y, p, active substitutions (evaluated in order), then the passive ones
+    (numeric substitutions, then the constants taken from `constants=`) -/
+def mkVarsG (g : GCfg) (sys : Sys) : Option (List (String × Poly String)) :=
+  match applyActive (mkVars sys.subst (paramNamesG g sys) []) g.active with
+  | none => none
+  | some d => some (applyPassive d (g.subs ++ usedConsts g sys.subst))
+
+/-- `get_odesys(rsys, include_params, substitutions (numbers and Exprs), cstr=True/False, constants=…)` -/
+def buildRhsG (g : GCfg) (sys : Sys) : Except BuildErr OdeSys :=
+  let cstr? := cstrOf g.cstr sys.subst
+  if sys.rxns.isEmpty then .error .typeError
+  else if (subsKeysG g).any (fun k => !(decide (k ∈ cstrKeys cstr?) || decide (k ∈ oriUk sys.rxns))) then .error .valueError
+  else
+    let names := sys.subst
+    let paramNames := paramNamesG g sys
+    if names.any (fun n => decide (n ∈ paramNames)) then .error .valueError
+    else if decide ("time" ∈ names) || decide ("time" ∈ paramNames) then .error .valueError
+    else if decide ("time" ∈ referenced sys.rxns) then .error .unmodelled
+    else
+      match mkVarsG g sys with
+      | none => .error .keyError
+      | some vars =>
+        match resolveAll vars sys.rxns with
+        | none => .error .keyError
+        | some rs =>
+          if (cstrNeeded cstr?).all (dmem vars) then
+            match readExprs names (sysRates (lookup vars) rs none cstr?) with
+            | .error e => .error e
+            | .ok exprs =>
+              if names.any (pyNumberEntry g.pyNums rs cstr?) then .error .attributeError else
+              .ok { names := names, paramNames := paramNames, paramKeys := allPkG g sys.subst,
+                    unique := uniqueDictG g sys.rxns, exprs := exprs,
+                    rateExprs := rs.map (massAction (lookup vars)) }
+          else .error .keyError
+
 /-! ## `_create_odesys` -/
 
 /-- configuration of `_create_odesys`: `rates_kw={'cstr_fr_fc': …}` (all substances fed, as for `cstr=True`) and
@@ -396,5 +520,45 @@ def buildRhs' (cfg : Cfg') (sys : Sys) : Except BuildErr OdeSys' :=
             if sys.subst.any (pyNumberEntry cfg.pyNums rs cstr?) then .error .attributeError
             else .ok { names := sys.subst, paramNames := keys, exprs := exprs }
         else .error .keyError
+
+/-! ## `_create_odesys` with user-supplied symbol dictionaries -/
+
+/-- everything of `_create_odesys` after `parameter_symbols` is known (ode.py 640 ff.), `keys` = its keys -/
+def buildTail' (cfg : Cfg') (sys : Sys) (keys : List String) : Except BuildErr OdeSys' :=
+  let cstr? := cstrOf cfg.cstr sys.subst
+  if decide ("time" ∈ sys.subst) || decide ("time" ∈ keys) || decide ("time" ∈ referenced sys.rxns)
+      || decide ("time" ∈ dkeys cfg.paramExprs) then .error .unmodelled
+  else if decide ("t" ∈ sys.subst) || decide ("t" ∈ keys) then .error .valueError
+  else if (rawReads sys.rxns cstr?).any (dmem cfg.paramExprs) then .error .unmodelled
+  else
+    let vars := mkVars' sys.subst keys cfg.paramExprs
+    match resolveAll vars sys.rxns with
+    | none => .error .keyError
+    | some rs =>
+      if (cstrNeeded cstr?).all (dmem vars) then
+        match readAll (sysRates (lookup vars) rs none cstr?) sys.subst with
+        | none => .error .keyError
+        | some exprs =>
+          if sys.subst.any (pyNumberEntry cfg.pyNums rs cstr?) then .error .attributeError
+          else .ok { names := sys.subst, paramNames := keys, exprs := exprs }
+      else .error .keyError
+
+/-- user-supplied dictionaries: `substance_symbols = OrderedDict((k, Symbol(k)) …)` over `substKeys`, and
+    `parameter_symbols` over `paramKeys` as an `OrderedDict` (`ordered = true`) or a plain `dict` -/
+structure UCfg' where
+  cfg : Cfg' := {}
+  substKeys : Option (List String) := none
+  paramKeys : Option (Bool × List String) := none
+
+/-- `_create_odesys(rsys, substance_symbols=…, parameter_symbols=…, …)`:
+    an `OrderedDict` of substance symbols must have the substances' keys in order (ValueError, ode.py 608-612);
+    a given `parameter_symbols` replaces the collection of keys (no NotImplementedError for plain numbers, no duplicate
+    check) but must be an `OrderedDict` (ValueError, ode.py 639-640) -/
+def buildRhs'U (u : UCfg') (sys : Sys) : Except BuildErr OdeSys' :=
+  if (match u.substKeys with | some ks => !(decide (ks = sys.subst)) | none => false) then .error .valueError
+  else
+    match u.paramKeys with
+    | none => buildRhs' u.cfg sys
+    | some (ordered, keys) => if ordered then buildTail' u.cfg sys keys else .error .valueError
 
 end ChemModel.OdeBuild
